@@ -31,8 +31,16 @@ def load_prop(pid: str):
 
 def run_checks(mod, pid: str, overlay: Overlay, tier: str, seed: int, only_key=None) -> Ctx:
     ctx = Ctx(pid, overlay, tier, seed, only_key=only_key)
-    mod.check(ctx)
-    ctx.check_floors()
+    try:
+        mod.check(ctx)
+        ctx.check_floors()
+    except AnalysisError as e:
+        # a definite violation found before the analysis had to give up is still a violation; the part that could
+        # not be decided is reported next to it
+        if not ctx.violations:
+            raise
+        ctx.note('analysis incomplete: %s' % e)
+        ctx.stats['analysis_incomplete'] = str(e)
     return ctx
 
 
@@ -63,6 +71,9 @@ def main(argv=None) -> int:
         extra['synthetic_positives'] = syn
         if args.tier == 'thorough':
             extra['self_test'] = selftest.run_mutants(mod, pid, overlay, seed)
+            sw = selftest.run_sweep(mod, pid, overlay)
+            if sw:
+                extra['sensitivity_sweep'] = sw
             if hasattr(mod, 'thorough'):
                 mod.thorough(ctx)
         new, known, _ = split_known(pid, ctx.violations)
@@ -84,6 +95,8 @@ def main(argv=None) -> int:
                  overlay.digest()))
         for r in ctx.rules:
             print('  rule %-8s instances=%-3d %s' % (r, len(ctx.instances.get(r, [])), ctx.rules[r][:110]))
+        if ctx.stats.get('analysis_incomplete'):
+            print('ANALYSIS-INCOMPLETE property=%s %s' % (pid, ctx.stats['analysis_incomplete']))
         for v in known:
             print('KNOWN-FINDING: property=%s %s -- %s (%s:%s)' % (pid, v.key, v.msg, v.path, v.line))
         for v in new:
